@@ -66,21 +66,24 @@ def handle3 (inp out : Sexp) : CaseResult :=
 def handle (inp out : Sexp) : CaseResult :=
   match inp with
   | .list (.atom "add3" :: _) => handle3 inp out
-  | .list [.atom "add", as, bs] =>
+  | .list [.atom "add", as, bs, .list [.atom "caches", .atom ca, .atom cb]] =>
     match decProgram as, decProgram bs with
     | some a, some b =>
       match out with
-      | .list [.atom "out", os, oacc, .list [.atom "eq", .atom eq], .list [.atom "getters", .atom gt], ovia] =>
+      | .list [.atom "out", os, oacc, .list [.atom "eq", .atom eq], .list [.atom "getters", .atom gt], ovia,
+          .list [.atom "ident", .atom i1, .atom i2, .atom i3, .atom i4]] =>
         match decProgram os, decProgram oacc, decProgram ovia with
         | some o, some o', some ov =>
           let m := canon (add a b)
           -- the add_instructions(listing of B) route must give the same containers and body; its used-qubit
           -- cache is rebuilt from B's listing, so it may be smaller than A.used ∪ B.used when B's cache is
           -- stale (known finding C10/redefined-calibration-leaves-stale-qubits): compared as ⊆ and tagged
-          let viaSame := { ov with usedQubits := [] } == { m with usedQubits := [] } &&
-            ov.usedQubits.all (fun q => m.usedQubits.contains q)
+          -- (its used set is RE-DERIVED from B's listing and so differs from A.used ∪ B.used whenever B's cache is
+          -- inexact — the known C10 findings; `+`/`+=` themselves must give the union of the REPORTED sets)
+          let viaSame := { ov with usedQubits := [] } == { m with usedQubits := [] }
+          let identOk := i1 == "true" && i2 == "true" && i3 == "true" && i4 == "true"
           let viaUsedSame := ov.usedQubits == m.usedQubits
-          let agree := m == o && m == o' && eq == "true" && gt == "true" && viaSame
+          let agree := m == o && m == o' && eq == "true" && gt == "true" && viaSame && identOk
           let wf := wfB a && wfB b
           let spec := concatB a b o && concatB a b o' && wfB o
           -- identities
@@ -106,8 +109,10 @@ def handle (inp out : Sexp) : CaseResult :=
             ++ (if gt != "true" then ["GETTERS-DISAGREE"] else [])
             ++ (if !idOk then ["IDENTITY-FAIL"] else [])
             ++ (if !viaSame then ["ADD-INSTRUCTIONS-ROUTE-DIFFERS"] else [])
-            ++ (if !viaUsedSame then ["via-route-used-smaller(C10-known)"] else [])
-          { agree := agree, specOk := wf && spec && idOk && eq == "true" && gt == "true" && viaSame,
+            ++ (if !viaUsedSame then ["via-route-used-differs(C10-known)"] else [])
+            ++ (if !identOk then ["IDENTITY-UNDER-EQ-FAIL"] else [])
+            ++ [s!"cacheA-{ca}", s!"cacheB-{cb}"]
+          { agree := agree, specOk := wf && spec && idOk && eq == "true" && gt == "true" && viaSame && identOk,
             nontrivial := !(a == Program.empty) && !(b == Program.empty),
             tags := tags, detail := s!"model={repr m} impl={out}" }
         | _, _, _ => .bad s!"undecodable output {out}"
